@@ -58,7 +58,7 @@ def check(ctx):
     impls = meta["impls"]
 
     def impl_id(name, h):
-        d = "%s|%s|%s" % (name, str(h.sig), gen.impl_desc(h.f))
+        d = "%s|%s|%s" % (name, str(h.sig), gen.canonical_desc(name, str(h.sig), h.f))
         return impls.index(d) if d in impls else -1
 
     cases = []
